@@ -22,7 +22,7 @@ type csvConfig struct {
 }
 
 var csvConfigs = []csvConfig{
-	{",", "\"", ""}, {"\t;", "'\"", ""}, {";|", "\"", ""}, {"‖", "“", ""}, {",", "'`", ""}, {",ш", "\"€", ""}, {",;", "\"", ""},
+	{",", "\"", ""}, {"\t;", "'\"", ""}, {";|", "\"", ""}, {"‖", "“", ""}, {",", "'`", ""}, {",ш", "\"€", ""}, {",;", "\"", ""}, {" ", "\"", ""}, {"; ", "'\"", ""},
 }
 var csvEols = []string{"\n", "\r", "\r\n", "\n\r"}
 
